@@ -348,6 +348,11 @@ func (acl *ACL) AuthorizeConnection(conn *net.Conn, cmd []string, command intern
 		return errors.New("user must be authenticated")
 	}
 
+	// If the user has been disabled since the connection was authenticated, refuse the command
+	if !connection.User.Enabled {
+		return fmt.Errorf("not authorised: user %s is disabled", connection.User.Username)
+	}
+
 	var notAllowed []string
 
 	// 2. Check if all categories are in IncludedCategories
